@@ -56,6 +56,7 @@ type Enc struct {
 	notes     map[string]bool // assumptions recorded (externs used, etc.)
 	structs   map[string]bool
 	nopanic   bool // emit safety obligations
+	property  string // the property whose clauses are being checked ("" = all)
 	curFunc   string
 	funcsUsed map[string]string // function -> status (contract/inlined/extern/assumed)
 	namedCache     []types.Type
